@@ -84,7 +84,7 @@ func NewDomConverter(flags ConverterFlag, builder webdoc.DocumentBuilder, pageUR
 }
 
 func (dc *DomConverter) Convert(root *html.Node) {
-	clone := dom.Clone(root, true)
+	clone := domutil.Clone(root, true)
 	domutil.RemoveDuplicateAttributes(clone)
 	domutil.WalkNodes(clone, dc.visitNodeHandler, dc.exitNodeHandler)
 }
